@@ -177,20 +177,30 @@ def call_inv(cfg, M, dims):
     from tensorly import base
 
     f = cfg["fam"]
-    shape = tuple(dims)
-    if f == "unfold":
-        return base.fold(M, cfg["mode"], shape)
-    if f == "partial_unfold":
-        if cfg.get("dflt"):
-            return base.partial_fold(M, cfg["mode"], shape)
-        return base.partial_fold(M, cfg["mode"], shape, skip_begin=cfg["sb"], skip_end=cfg["se"])
-    if f == "tensor_to_vec":
-        return base.vec_to_tensor(M, shape)
-    if f == "partial_tensor_to_vec":
-        if cfg.get("dflt"):
-            return base.partial_vec_to_tensor(M, shape)
-        return base.partial_vec_to_tensor(M, shape, skip_begin=cfg["sb"], skip_end=cfg["se"])
-    raise KeyError(f)
+    # the target shape is handed over as ONE list object used for two consecutive calls (callers keep such a list around); the
+    # result of the second call is what the obligations look at, and the list itself must come back unchanged
+    shape = list(dims)
+
+    def once():
+        if f == "unfold":
+            return base.fold(M, cfg["mode"], shape)
+        if f == "partial_unfold":
+            if cfg.get("dflt"):
+                return base.partial_fold(M, cfg["mode"], shape)
+            return base.partial_fold(M, cfg["mode"], shape, skip_begin=cfg["sb"], skip_end=cfg["se"])
+        if f == "tensor_to_vec":
+            return base.vec_to_tensor(M, shape)
+        if f == "partial_tensor_to_vec":
+            if cfg.get("dflt"):
+                return base.partial_vec_to_tensor(M, shape)
+            return base.partial_vec_to_tensor(M, shape, skip_begin=cfg["sb"], skip_end=cfg["se"])
+        raise KeyError(f)
+
+    once()
+    out = once()
+    if len(shape) != len(dims) or any(a is not b for a, b in zip(shape, dims)):
+        raise AssertionError("the refold operation modified the caller's shape list")
+    return out
 
 
 def apply_dir(cfg, X, dims):
